@@ -302,6 +302,10 @@ func rulesC18(c *Ctx) {
 		c.Check(nOther == 0, "ResourceUpdated:no-broadcast", ru, nil, "ResourceUpdated never iterates all sessions")
 	})
 
+	c.Import("R-C18-9", "the client's list-changed subscription lives as long as the session, not as long as the context that was passed to Connect or Subscribe", "C04", "R-C04-9", func(k string) bool {
+		return strings.HasPrefix(k, "listen-context-detached") || strings.HasPrefix(k, "subscriptions/listen openers")
+	})
+
 	c.Rule("R-C18-8", "a listen that ends takes down only its own subscriptions: the deferred cleanup of subscriptionsListen deletes a session's entry from a list-changed map only if that entry still carries this listen's request id (a session may have a list-changed listen and per-URI listens open at the same time)", func() {
 		sl := c.Fn(pM, "Server", "subscriptionsListen")
 		idVar := sl.VarFromCallWhere(func(ce *ast.CallExpr) bool {
